@@ -809,12 +809,12 @@ def main(ctx):
     for c in load_corpus():
         c['id'] = len(cases)
         cases.append(c)
-    n = {'quick': 120, 'thorough': 2000}[ctx.tier]
+    n = {'quick': 120, 'thorough': 1500}[ctx.tier]
     focus = frozenset(degraded)
     if focus:
         # T -> H: the regions the translator could not read are modelled by the values of the
         # registered tree; what they decide is now tied by a widened correspondence only
-        n = {'quick': 300, 'thorough': 3000}[ctx.tier]
+        n = {'quick': 300, 'thorough': 2500}[ctx.tier]
     for _ in range(n):
         c = gen_case(ctx.rng, len(cases), focus)
         if c['id'] % 3 == 0 or ('file_layer' in focus and c['id'] % 3 == 1):
